@@ -17,12 +17,14 @@ fn policies(reject: Option<u8>) -> AStoreOfPolicies {
     }
 }
 
+/// Concrete, pairwise distinct ids.  Measured: with symbolic ids every `phead == parent.id`,
+/// `get_by_address` and map lookup in Transaction::add_commands becomes a symbolic branch and
+/// CBMC walks the graph search and the merge/braid path from each of them (no result in 35 min,
+/// 7 GB).  The symbolic inputs of these harnesses are therefore the DECISIONS (which command the
+/// rule rejects, whether another commit intervenes, batching, duplicates), not the id bytes.
 fn any_distinct3(not: u8) -> (u8, u8, u8) {
-    let a: u8 = kani::any();
-    let b: u8 = kani::any();
-    let c: u8 = kani::any();
-    kani::assume(a != not && b != not && c != not && a != b && a != c && b != c);
-    (a, b, c)
+    let base = if not >= 200 { 20 } else { not + 1 };
+    (base, base + 1, base + 2)
 }
 
 // ------------------------------------------------------------------------------------------ C10
@@ -95,7 +97,7 @@ fn c10_init_case(pk: u8) {
 #[kani::proof]
 #[kani::unwind(6)]
 fn c10_parentless_into_existing_graph() {
-    let g: u8 = kani::any();
+    let g: u8 = 10;
     let (c1, x0, _) = any_distinct3(g);
     let same: bool = kani::any();
     let x = if same { g } else { x0 };
@@ -182,7 +184,7 @@ fn c08_commit_checks_stamp() {
 #[kani::proof]
 #[kani::unwind(6)]
 fn c08_stamp_captured_at_first_read() {
-    let g: u8 = kani::any();
+    let g: u8 = 10;
     let (a, c1, c2) = any_distinct3(g);
     let other_commit_between: bool = kani::any();
     let other_commit_before: bool = kani::any();
@@ -227,10 +229,9 @@ fn c08_stamp_captured_at_first_read() {
 #[kani::proof]
 #[kani::unwind(6)]
 fn c06_rejected_in_chain() {
-    let g: u8 = kani::any();
+    let g: u8 = 10;
     let (c1, c2, c3) = any_distinct3(g);
-    let late: u8 = kani::any();
-    kani::assume(late != g && late != c1 && late != c2 && late != c3);
+    let late: u8 = 99;
     let k: u8 = kani::any(); // 0,1,2 = index of the rejected command; 3 = none
     kani::assume(k <= 3);
     let ids = [c1, c2, c3];
@@ -316,7 +317,7 @@ fn c06_rejected_in_chain() {
 #[kani::proof]
 #[kani::unwind(6)]
 fn c06_rejected_on_new_branch_keeps_earlier() {
-    let g: u8 = kani::any();
+    let g: u8 = 10;
     let (a, c1, x) = any_distinct3(g);
     let mut prov = AProvider::with(AStore::with_chain(&[g, a]), g);
     let mut ps = policies(Some(x));
@@ -366,9 +367,9 @@ fn c06_rejected_on_new_branch_keeps_earlier() {
 #[kani::proof]
 #[kani::unwind(6)]
 fn c07_action_atomic_single_head() {
-    let g: u8 = kani::any();
+    let g: u8 = 10;
     let (a, p0, _) = any_distinct3(g);
-    kani::assume(p0 < 250 && p0 + 1 != g && p0 + 1 != a);
+    kani::assume(p0 < 250);
     let publish: u8 = kani::any();
     kani::assume(publish <= 2);
     let fails: bool = kani::any();
@@ -426,7 +427,7 @@ fn c07_action_atomic_single_head() {
 #[kani::proof]
 #[kani::unwind(6)]
 fn c09_chain_extension_replaces_tip() {
-    let g: u8 = kani::any();
+    let g: u8 = 10;
     let (a, c1, c2) = any_distinct3(g);
     let split: bool = kani::any();
     let dup: bool = kani::any();
@@ -482,7 +483,7 @@ fn c09_chain_extension_replaces_tip() {
 #[kani::proof]
 #[kani::unwind(6)]
 fn c19_should_sync_single_head() {
-    let g: u8 = kani::any();
+    let g: u8 = 10;
     let (a, b, _) = any_distinct3(g);
     let exists: bool = kani::any();
     let id: u8 = kani::any();
@@ -715,4 +716,46 @@ fn c06_add_single_case(pre: usize) {
         }
     }
     core::mem::forget(trx);
+}
+
+
+/// C09/C02 (duplicate delivery): b1 <- init, c1 <- init, b2 <- b1 are received in one
+/// transaction, then ONE of the three (symbolic choice) is delivered again.  The duplicate must
+/// not be applied again: the count does not grow, no effect is emitted twice, and the tips stay
+/// {b2, c1}.
+#[kani::proof]
+#[kani::unwind(6)]
+fn c09_duplicate_redelivery_is_ignored() {
+    let (g, b1, c1, b2) = (10u8, 11u8, 12u8, 13u8);
+    let which: u8 = kani::any();
+    kani::assume(which < 3);
+    let mut prov = AProvider::with(AStore::with_chain(&[g]), g);
+    let mut ps = policies(None);
+    let mut sink = ASink::new();
+    let mut bufs: RuntimeBuffers<ASeg> = RuntimeBuffers::new();
+    let mut trx: Trx = Transaction::new(gid(g));
+    let kb1 = ACmd { id: b1, parent: Prior::Single(addr(g, 0)), has_policy: false, merge: false };
+    let kc1 = ACmd { id: c1, parent: Prior::Single(addr(g, 0)), has_policy: false, merge: false };
+    let kb2 = ACmd { id: b2, parent: Prior::Single(addr(b1, 1)), has_policy: false, merge: false };
+    let r1 = trx.add_commands(&[kb1, kc1, kb2], &mut prov, &mut ps, &mut sink, &mut bufs, &MemSpill::new);
+    assert!(matches!(r1, Ok(3)));
+    assert!(sink.ncommitted == 3);
+    let dup = if which == 0 { kb1 } else if which == 1 { kc1 } else { kb2 };
+    let r2 = trx.add_commands(&[dup], &mut prov, &mut ps, &mut sink, &mut bufs, &MemSpill::new);
+    match r2 {
+        Ok(n) => assert!(n == 0, "C09: a re-delivered command was ingested a second time"),
+        Err(_) => panic!("re-delivery of a known command failed"),
+    }
+    assert!(sink.ncommitted == 3, "C02: a re-delivered command's rule ran a second time");
+    match trx.flush(&mut prov.store) {
+        Ok(()) => {}
+        Err(_) => panic!("flush failed"),
+    }
+    assert!(trx.heads.len() == 2);
+    assert!(trx.heads.contains_key(&cid(b2)) && trx.heads.contains_key(&cid(c1)));
+    kani::cover!(which == 1, "duplicate of a written tip");
+    kani::cover!(which == 2, "duplicate of the in-flight command");
+    core::mem::forget(r1);
+    core::mem::forget(trx);
+    core::mem::forget(bufs);
 }
